@@ -41,6 +41,7 @@ type Case struct {
 	FileLen int    // read: -1 file absent, 0..3 short file, 4 = mask + value
 	Global  bool   // legacy: use WriteEfivars/ReadEfivars (GUID chosen by name)
 	Chunk   int    // read: the file hands out at most Chunk bytes per Read call (0 = no limit)
+	Short   bool   // write: the file system accepts only half of the buffer (short write, nil error)
 }
 
 type raw []byte
@@ -110,6 +111,7 @@ func genCase(t *rapid.T) Case {
 	if c.API == "legacy" {
 		c.Global = rapid.IntRange(0, 3).Draw(t, "global") == 0
 	}
+	c.Short = c.Op == "write" && rapid.IntRange(0, 5).Draw(t, "shortwrite") == 0
 	return c
 }
 
@@ -146,6 +148,9 @@ func checkCase(c Case) error {
 	mem := afero.NewMemMapFs()
 	rec := recfs.New(mem, "MemMapFS")
 	rec.ReadChunk = c.Chunk
+	if c.Short {
+		rec.Fault = recfs.Fault{At: 2, Kind: "short"} // fallible calls of a write: OpenFile, Write, Close
+	}
 	if c.Chunk > 0 {
 		hx.Class("read/chunked_reader")
 	}
@@ -182,7 +187,12 @@ func checkCase(c Case) error {
 				err = attributes.WriteEfivarsWithGuid(name, attributes.Attributes(c.Attrs), value, lg)
 			}
 		}
-		if err != nil {
+		if c.Short {
+			hx.Class("write/short_write_by_the_file_system")
+			if err == nil {
+				return fmt.Errorf("the file system took only half of the buffer (short write) but the write of %s reported success", wantPath)
+			}
+		} else if err != nil {
 			return fmt.Errorf("write of %s fails on a working file system: %v", wantPath, err)
 		}
 		var opens, writes []recfs.Event
